@@ -141,6 +141,10 @@ class ProofState():
         last number is less than the corresponding number in goal_id.
 
         """
+        # Only gaps can be replaced by an earlier line.
+        if self.get_proof_item(goal_id).rule != 'sorry':
+            return None
+
         prf = self.prf
         try:
             for n in goal_id.id:
@@ -754,10 +758,11 @@ class introduction(Method):
         state.check_proof(compute_only=True)
 
         # Test if the goal is already proved
-        for item in cur_item.subproof.items:
-            new_id = state.find_goal(state.get_proof_item(item.id).th, item.id)
-            if new_id is not None:
-                state.replace_id(item.id, new_id)
+        for item in reversed(cur_item.subproof.items):
+            if item.rule == 'sorry':
+                new_id = state.find_goal(state.get_proof_item(item.id).th, item.id)
+                if new_id is not None:
+                    state.replace_id(item.id, new_id)
 
 
 def cites(item, id):
